@@ -133,7 +133,9 @@ func (e *chainEnv) extend(v *vnode, k int, hide func(n uint64) bool) []*types.Bl
 	for j := 0; j < k && !e.bad; j++ {
 		parent := v.n.Chain.CurrentBlock()
 		num := parent.NumberU64() + 1
-		if hide != nil && hide(num) {
+		// (a builder that does not know the version that is ALREADY active cannot build at all - the real
+		// node terminates there; the sibling builder only lacks the next version while YouV4 is active)
+		if hide != nil && hide(num) && parent.Header().CurrVersion == params.YouV4 {
 			params.Versions = e.hidden
 		} else {
 			params.Versions = e.known
